@@ -1,11 +1,19 @@
 use simcore::{Scenario, Tier};
 fn main() {
-    let n: u64 = std::env::args().nth(1).and_then(|s| s.parse().ok()).unwrap_or(2000);
+    let mode = std::env::args().nth(1).unwrap_or_default();
+    let n: u64 = std::env::args().nth(2).and_then(|s| s.parse().ok()).unwrap_or(2000);
     for run in 0..n {
-        let (cfg, steps) = scn_competition::sim::CompetitionSim.generate(20260921, run, Tier::Quick, "C39");
-        let mut obs = simcore::Obs::new("C39", Default::default(), false);
-        eprintln!("run {run} steps {}", steps.len());
-        scn_competition::sim::CompetitionSim.execute(&cfg, &steps, &mut obs);
-        if !obs.violations.is_empty() { eprintln!("{:?}", obs.violations[0]); eprintln!("{cfg:?}"); break; }
+        let mut obs = simcore::Obs::new("C39", Default::default(), true);
+        if mode == "real" {
+            let (cfg, steps) = scn_competition::real::CompetitionReal.generate(20260921, run, Tier::Quick, "C39");
+            println!("=== run {run} {cfg:?}");
+            for s in &steps { println!("   {s:?}"); }
+            scn_competition::real::CompetitionReal.execute(&cfg, &steps, &mut obs);
+        } else {
+            let (cfg, steps) = scn_competition::sim::CompetitionSim.generate(20260921, run, Tier::Quick, "C39");
+            scn_competition::sim::CompetitionSim.execute(&cfg, &steps, &mut obs);
+        }
+        if mode == "real" { for h in &obs.history { println!("      {h}"); } println!("      {:?}", obs.probes); }
+        if !obs.violations.is_empty() { eprintln!("{:?}", obs.violations[0]); break; }
     }
 }
